@@ -1004,3 +1004,76 @@ func TestC20File(t *testing.T) {
 		o.Count("file-run-iterations", kit.Bucket(n))
 	}
 }
+
+// ---------------------------------------------------------------- C20: a combined iteration in flight when the run is interrupted
+
+// The run is cancelled (what SIGINT / SIGTERM do) while the first part of a combined iteration
+// executes; the parts after it still run on the same handle before the run returns, and a part
+// that stops or fails the iteration then makes it a failed iteration of the run's result.
+func TestC20Interrupted(t *testing.T) {
+	o := kit.Get()
+	defer o.Close()
+	r := kit.NewRand(kit.Seed() + 206)
+	for i := 0; i < kit.N(6, 40); i++ {
+		how := i % 4
+		var order []string
+		var mu sync.Mutex
+		var handles []*f1testing.T
+		note := func(s string, h *f1testing.T) {
+			mu.Lock()
+			order = append(order, s)
+			handles = append(handles, h)
+			mu.Unlock()
+		}
+		hold := time.Duration(r.Range(120, 220)) * time.Millisecond
+		first := func(*f1testing.T) f1testing.RunFn {
+			return func(t *f1testing.T) { note("first", t); time.Sleep(hold) }
+		}
+		second := func(*f1testing.T) f1testing.RunFn {
+			return func(t *f1testing.T) {
+				note("second", t)
+				switch how {
+				case 0:
+					t.FailNow()
+				case 1:
+					t.Fail()
+				case 2:
+					panic("second part panics")
+				default:
+					t.Require().True(false)
+				}
+			}
+		}
+		third := func(*f1testing.T) f1testing.RunFn { return func(t *f1testing.T) { note("third", t) } }
+		ctx, cancel := context.WithCancel(context.Background())
+		go func() { time.Sleep(time.Duration(r.Range(30, 80)) * time.Millisecond); cancel() }()
+		mode := []string{"users", "constant"}[i%2]
+		flags := map[string]string{}
+		if mode == "constant" {
+			flags["rate"] = "1/1s"
+			flags["distribution"] = "none"
+		}
+		out, hung, _ := runkit.DoTimeout(runkit.Config{Mode: mode, Flags: flags, Scenario: f1.CombineScenarios(first, second, third), Ctx: ctx,
+			Opts: options.RunOptions{MaxDuration: 10 * time.Second, Concurrency: 1}}, 60*time.Second)
+		cancel()
+		if hung || out.Err != nil || out.Result == nil {
+			o.Fail("c20-interrupted-run", "interrupted run did not return")
+			continue
+		}
+		mu.Lock()
+		got := strings.Join(order, ",")
+		same := len(handles) >= 2 && handles[0] == handles[1]
+		mu.Unlock()
+		want := "first,second"
+		if how == 1 {
+			want = "first,second,third" // Fail marks and goes on
+		}
+		sn := out.Result.Snapshot()
+		if got != want || !same {
+			o.Fail("c20-interrupted-parts", fmt.Sprintf("%s run cancelled while the first part of a combined iteration was executing: parts seen when the run returned: [%s] (want [%s]), on one handle: %v", mode, got, want, same))
+		}
+		o.Count("interrupted", mode)
+		o.Case("c01_ok", []string{"0", "1", "0", kit.I(sn.SuccessfulIterationDurations.Count), kit.I(sn.FailedIterationDurations.Count), kit.I(sn.DroppedIterationCount),
+			"F", "0", "0", "0"}, "T", "interrupted", "nt")
+	}
+}
